@@ -353,8 +353,10 @@ def run_sasview_beta2d(case, rec):
     m.setParam("radius.npts", 9)
     m.setParam("radius.nsigmas", 2.0)
     m.cutoff = 0.0
-    qx = np.exp(rng.uniform(math.log(0.005), math.log(0.2), 5))*np.cos(0.6)
-    qy = qx*math.tan(0.6)
+    # pixels on the qx axis: |q| is then the same number in the 1-D and in the 2-D evaluation (hayter_msa turns a last-bit
+    # difference of |q| into a visible one)
+    qx = np.exp(rng.uniform(math.log(0.005), math.log(0.2), 5))
+    qy = np.zeros(len(qx))
     out = {}
     for beta in (0, 1):
         m.setParam("structure_factor_mode", beta)
